@@ -20,7 +20,7 @@ from hypothesis import strategies as st
 from pbt.gen.c19_model import sym_quarters
 
 MEI_NS = "http://www.music-encoding.org/ns/mei"
-MEI_DUR = {"whole": "1", "half": "2", "quarter": "4", "eighth": "8", "16th": "16", "32nd": "32", "64th": "64", "128th": "128"}
+MEI_DUR = {"long": "long", "breve": "breve", "whole": "1", "half": "2", "quarter": "4", "eighth": "8", "16th": "16", "32nd": "32", "64th": "64", "128th": "128"}
 ACCID = {-2: "ff", -1: "f", 0: "n", 1: "s", 2: "ss"}
 CLEFS = [("G", 2, 0), ("F", 4, 0), ("C", 3, 0), ("C", 4, 0), ("G", 2, -1), ("G", 2, 1), ("F", 4, -1), ("F", 3, 0), ("C", 1, 0)]
 
